@@ -53,7 +53,10 @@ func (g *cgen) node(d int, inLoop, inFunc bool) *cnode {
 		g.nprobe++
 		return &cnode{kind: "probe", k: g.nprobe}
 	}
-	switch g.r.Intn(14) {
+	switch g.r.Intn(15) {
+	case 14:
+		// a module block is transparent for control flow: signals (and a returned value) pass through it
+		return &cnode{kind: "module", id: g.id(), kids: []*cnode{g.seq(d-1, inLoop, inFunc)}}
 	case 0, 1:
 		g.nprobe++
 		return &cnode{kind: "probe", k: g.nprobe}
@@ -206,6 +209,10 @@ func (n *cnode) render(b *strings.Builder, cur string) {
 			n.els.render(b, cur)
 		}
 		b.WriteString("}\n")
+	case "module":
+		fmt.Fprintf(b, "module md%d {\n", n.id)
+		n.kids[0].render(b, cur)
+		b.WriteString("}\n")
 	case "func":
 		// the value of the invocation is probed so that `return` is observable
 		b.WriteString("probe(func() {\n")
@@ -248,6 +255,8 @@ func (n *cnode) eval(trace *[]string, idx int) (csig, int) {
 				return s, v
 			}
 		}
+	case "module":
+		return n.kids[0].eval(trace, idx)
 	case "if":
 		for i, c := range n.conds {
 			if c {
@@ -324,6 +333,43 @@ func streamControl(o *Out, r *rand.Rand, n int, thorough bool) {
 		if res.err != nil || len(res.trace) != 1 || res.trace[0] != c.want {
 			o.Fail(Failure{Oracle: "signal-passes-try", Key: "try-catches-signal:" + c.name, Input: c.src,
 				Detail: fmt.Sprintf("%s inside try is routed to the catch block: trace %v err %v (expected the single probe %s)", c.name, res.trace, res.err, c.want)})
+		}
+	}
+	// break / continue act on the innermost enclosing loop OF THE SAME FUNCTION only: a callee's stray break or continue is
+	// an error of the call and never touches the caller's loop; a returned value survives every kind of block on its way out
+	stray := []struct {
+		src     string
+		want    []string
+		wantErr string
+	}{
+		{"for i = 0; i < 3; i++ {\nprobe(i)\nfunc() {\nif true {\nbreak\n}\n}()\nprobe(10 + i)\n}\nprobe(99)", []string{"(i 0)"}, "unexpected break"},
+		{"for i = 0; i < 3; i++ {\nprobe(i)\nfunc() {\nif true {\ncontinue\n}\n}()\nprobe(10 + i)\n}\nprobe(99)", []string{"(i 0)"}, "unexpected continue"},
+		{"func stop() {\nbreak\n}\nfor x in [1, 2, 3] {\nprobe(x)\nstop()\n}\nprobe(99)", []string{"(i 1)"}, "unexpected break"},
+		{"func skip(v) {\nif v == 2 {\ncontinue\n}\n}\nn = 0\nfor n < 3 {\nn++\nskip(n)\nprobe(n)\n}\nprobe(99)", []string{"(i 1)"}, "unexpected continue"},
+		{"func stop(a, b, c, d, e) {\nbreak\n}\nfor {\nprobe(1)\nstop(1, 2, 3, 4, 5)\nprobe(2)\nbreak\n}\nprobe(99)", []string{"(i 1)"}, "unexpected break"},
+		{"func stop(v...) {\nswitch 1 {\ncase 1:\nbreak\n}\n}\nfor i = 0; i < 2; i++ {\nfor j = 0; j < 2; j++ {\nprobe(10 * i + j)\nstop()\n}\n}\nprobe(99)", []string{"(i 0)"}, "unexpected break"},
+		{"r = 0\nfor i = 0; i < 3; i++ {\nr = func() {\nfor {\nbreak\n}\nreturn i\n}()\nprobe(r)\n}", []string{"(i 0)", "(i 1)", "(i 2)"}, ""},
+		{"probe(func() {\nmodule a {\nreturn 10\n}\nreturn 20\n}())", []string{"(i 10)"}, ""},
+		{"probe(func() {\nmodule a {\nif true {\nfor {\nreturn 1, 2\n}\n}\n}\n}())", []string{"(l (i 1) (i 2))"}, ""},
+		{"probe(func() {\nfor x in [1] {\nswitch x {\ncase 1:\nmodule b {\nreturn \"v\"\n}\n}\n}\n}())", []string{"(s 76)"}, ""},
+		{"func f() {\nmodule c {\nreturn 1, 2\n}\n}\na, b = f()\nprobe(a + b)", []string{"(i 3)"}, ""},
+	}
+	for _, c := range stray {
+		stmt, err := parser.ParseSrc(c.src)
+		if err != nil {
+			o.Fail(Failure{Oracle: "control-template-parses", Key: "control-template-parse", Input: c.src, Detail: err.Error()})
+			continue
+		}
+		res := runVM(stmt, -1, 3*time.Second)
+		o.Case(fmt.Sprintf("(run %d _ %s)", modelFuel, astser.Prog(stmt)), res.line, c.src, true)
+		o.Sum.Hist["boundary-template"]++
+		gotErr := ""
+		if res.err != nil {
+			gotErr = res.err.Error()
+		}
+		if res.hung || res.panicked || strings.Join(res.trace, " ") != strings.Join(c.want, " ") || (c.wantErr == "") != (gotErr == "") || !strings.Contains(gotErr, c.wantErr) {
+			o.Fail(Failure{Oracle: "signals-stay-in-their-function", Key: "control-boundary:" + firstLine(c.src), Input: c.src,
+				Detail: fmt.Sprintf("expected trace %v and error %q; got trace %v and error %q", c.want, c.wantErr, res.trace, gotErr)})
 		}
 	}
 	for i := 0; i < n; i++ {
